@@ -40,6 +40,7 @@ let print_ev (e : tev) =
       Printf.printf "rpc %s %d %s %s %d %d %s %s\n" (kind_tok k) (int_of_nat j) (ocaml_of_str name) (key_tok locked key)
         (int_of_z t) (int_of_z at) (b01 ok) (etok er)
   | TRpcFail (k, j, at) -> Printf.printf "fail %s %d %d\n" (kind_tok k) (int_of_nat j) (int_of_z at)
+  | TUnlockCall (j, at) -> Printf.printf "ucall %d %d\n" (int_of_nat j) (int_of_z at)
   | TUnlockRet (j, at) -> Printf.printf "uret %d %d\n" (int_of_nat j) (int_of_z at)
   | TCloseRet at -> Printf.printf "cret %d\n" (int_of_z at)
   | TCrash (c, at) ->
@@ -58,6 +59,9 @@ let parse_item (w : ostring list) : item option =
   | ["lock"; name; t; size] -> Some (ILock (str_of_ocaml name, z_of_int (int_of_string t), z_of_int (int_of_string size)))
   | ["try"; name; t; size] -> Some (ITryLock (str_of_ocaml name, z_of_int (int_of_string t), z_of_int (int_of_string size)))
   | ["unlock"; j] -> Some (IUnlock (nat_of_int (int_of_string j)))
+  | ["ubegin"; j] -> Some (IUnlockBegin (nat_of_int (int_of_string j)))
+  | ["usend"; j] -> Some (IUnlockSend (nat_of_int (int_of_string j)))
+  | ["uend"; j] -> Some (IUnlockEnd (nat_of_int (int_of_string j)))
   | ["close"] -> Some IClose
   | ["adv"; ns] -> Some (IAdvance (z_of_int (int_of_string ns)))
   | ["hold"; j; s] -> Some (IHold (nat_of_int (int_of_string j), stage_of s))
